@@ -1,6 +1,7 @@
 use crate::{
     consts::{FELT_0, FELT_1, FELT_2},
     dynamic::DynamicParams,
+    layout::CompositionPolyEvalError,
     types::{ContinuousPageHeader, Page, SegmentInfo},
 };
 use alloc::vec;
@@ -9,6 +10,7 @@ use serde::{Deserialize, Serialize};
 use serde_with::serde_as;
 use starknet_core::types::NonZeroFelt;
 use starknet_crypto::{pedersen_hash, poseidon_hash_many, Felt};
+use swiftness_transcript::ensure;
 
 pub const MAX_LOG_N_STEPS: Felt = Felt::from_hex_unchecked("0x50");
 pub const MAX_RANGE_CHECK: Felt = Felt::from_hex_unchecked("0xffff");
@@ -64,19 +66,22 @@ impl PublicInput {
         z: Felt,
         alpha: Felt,
         public_memory_column_size: Felt,
-    ) -> Felt {
+    ) -> Result<Felt, CompositionPolyEvalError> {
         let (pages_product, total_length) = self.get_public_memory_product(z, alpha);
 
         // Pad and divide
         let numerator = z.pow_felt(&public_memory_column_size);
         let padded = z - (self.padding_addr + alpha * self.padding_value);
 
-        assert!(total_length <= public_memory_column_size);
+        ensure!(
+            total_length <= public_memory_column_size,
+            CompositionPolyEvalError::ValueOutOfRange
+        );
         let denominator_pad = padded.pow_felt(&(public_memory_column_size - total_length));
 
-        numerator
+        Ok(numerator
             .field_div(&NonZeroFelt::from_felt_unchecked(pages_product))
-            .field_div(&NonZeroFelt::from_felt_unchecked(denominator_pad))
+            .field_div(&NonZeroFelt::from_felt_unchecked(denominator_pad)))
     }
     // Returns the product of all public memory cells.
     pub fn get_public_memory_product(&self, z: Felt, alpha: Felt) -> (Felt, Felt) {
